@@ -24,10 +24,10 @@ func init() {
 		Assumptions: []string{"unsupported alternatives (|, in, contains, ~) make all renderings fail alike: consistent, not a violation here",
 			"a string or unit word is never appended after a source ending in a NUMBER (that would form a quantity literal)"},
 		Run:    runC11,
-		Checks: map[string]func(*core.Env, []json.RawMessage){"tree": replayC11, "pure": replayC11Pure, "word": replayC11Word},
+		Checks: map[string]func(*core.Env, []json.RawMessage){"tree": replayC11, "pure": replayC11Pure, "word": replayC11Word, "chain": replayC11Chain},
 		Threshold: func(m *core.Merged) []string {
 			var r []string
-			for _, k := range []string{"tree", "compiled", "rejected-consistently", "decorated", "trailing-token", "pure-tree", "min-differs-from-full", "string-method", "keyword-member", "compiled-without-options"} {
+			for _, k := range []string{"tree", "compiled", "rejected-consistently", "decorated", "trailing-token", "pure-tree", "min-differs-from-full", "string-method", "keyword-member", "compiled-without-options", "operator-chain"} {
 				if m.Cover[k] == 0 {
 					r = append(r, "never observed: "+k)
 				}
@@ -428,6 +428,42 @@ func c11Word(env *core.Env, word string, shape int) {
 	c11Check(env, tree, uint64(shape)*131+uint64(len(word)), "word")
 }
 
+// c11Chain: two binary operators applied in a chain, `1 op1 2 op2 3`, grouped to the left and to the right, for
+// every pair of operators (also where the inner result cannot be an operand of the outer operator: whether such a
+// program is accepted and what it yields must not depend on redundant parentheses or blanks).
+var c11Ops = []string{"*", "/", "div", "mod", "+", "-", "&", "<", "<=", ">", ">=", "=", "!=", "and", "or", "xor", "implies"}
+
+func c11Chain(env *core.Env, op1, op2 string, operands int, right bool) {
+	defer env.In("chain", op1, op2, operands, right)()
+	sets := [][3]string{{"1", "2", "3"}, {"true", "false", "true"}, {"'a'", "'b'", "'c'"}, {"{}", "1", "2"}, {"3", "2", "1"}}
+	o := sets[operands%len(sets)]
+	l := func(t string) *gen.Expr {
+		if t == "{}" {
+			return &gen.Expr{K: "empty", Text: "{}"}
+		}
+		return &gen.Expr{K: "lit", Text: t}
+	}
+	var tree *gen.Expr
+	if right {
+		tree = &gen.Expr{K: "bin", Text: op1, Kids: []*gen.Expr{l(o[0]), {K: "bin", Text: op2, Kids: []*gen.Expr{l(o[1]), l(o[2])}}}}
+	} else {
+		tree = &gen.Expr{K: "bin", Text: op2, Kids: []*gen.Expr{{K: "bin", Text: op1, Kids: []*gen.Expr{l(o[0]), l(o[1])}}, l(o[2])}}
+	}
+	env.Cover("operator-chain")
+	c11Check(env, tree, uint64(operands)*7+uint64(len(op1))*131+uint64(len(op2)), "chain")
+}
+
+func replayC11Chain(env *core.Env, a []json.RawMessage) {
+	var op1, op2 string
+	var operands int
+	var right bool
+	json.Unmarshal(a[0], &op1)
+	json.Unmarshal(a[1], &op2)
+	json.Unmarshal(a[2], &operands)
+	json.Unmarshal(a[3], &right)
+	c11Chain(env, op1, op2, operands, right)
+}
+
 func replayC11Word(env *core.Env, a []json.RawMessage) {
 	var w string
 	var sh int
@@ -465,6 +501,22 @@ func runC11(env *core.Env) {
 			k++
 			if env.Mine(k) {
 				c11Word(env, w, shape)
+			}
+		}
+	}
+	for i1, op1 := range c11Ops {
+		for i2, op2 := range c11Ops {
+			for _, right := range []bool{false, true} {
+				sets := []int{(i1 + i2) % 5}
+				if !env.Quick() {
+					sets = []int{0, 1, 2, 3, 4}
+				}
+				for _, set := range sets {
+					k++
+					if env.Mine(k) {
+						c11Chain(env, op1, op2, set, right)
+					}
+				}
 			}
 		}
 	}
